@@ -30,7 +30,7 @@ func runC05(c *Ctx) {
 	c.Rule("R05d", "copyRows: a value is rewritten while copying (source expression other than the plain column) only under a condition that implies the new column is NOT NULL", 1)
 	c.Rule("R05e", "copyRows: a column of the new table is left out of the copy only if it is generated (true edge of Has(column.Attrs, GeneratedExpr)) or newly added (the AddColumn case): no other path through an iteration avoids appending to the destination list", 1)
 	c.Rule("R05b", "modifyTable rebuild order: addTable(new_) ≺ copyRows(old, new) ≺ DROP TABLE old ≺ RENAME new_ TO old ≺ addIndexes; skipFKs is set; copyRows rejects a DropColumn of a surviving column", 7)
-	c.Rule("R05c", "in-place path: every change kind alterable() accepts has a case in alterTable(); alterTable rejects anything else", 6)
+	c.Rule("R05c", "in-place path: every change kind alterable() accepts has a case in alterTable(); alterTable rejects anything else", 4)
 	checkCopyRows(c)
 	checkRebuildOrder(c, "R05b")
 	checkAlterable(c, "R05c")
@@ -524,9 +524,9 @@ func checkAlterable(c *Ctx, rule string) {
 // ---------------------------------------------------------------- C01
 
 func runC01(c *Ctx) {
-	c.Rule("R01a", "emit ⊆ handle: per dialect, every change kind the differ may emit at top level has a case in the planner's plan/topLevel switches, and every kind it may nest inside ModifyTable.Changes has a case in modifyTable/alterTable (or, for SQLite, is covered by the table rebuild)", 50)
-	c.Rule("R01b", "SQLite in-place set: kinds accepted by alterable() ⊆ cases of alterTable(); both refuse unknown kinds", 6)
-	c.Rule("R01c", "SQLite rebuild keeps its order (addTable ≺ copyRows ≺ DROP ≺ RENAME ≺ addIndexes, foreign keys disabled)", 7)
+	c.Rule("R01a", "emit ⊆ handle: per dialect, every change kind the differ may emit at top level has a case in the planner's plan/topLevel switches, and every kind it may nest inside ModifyTable.Changes has a case in modifyTable/alterTable (or, for SQLite, is covered by the table rebuild)", 30)
+	c.Rule("R01b", "SQLite in-place set: kinds accepted by alterable() ⊆ cases of alterTable(); both refuse unknown kinds", 4)
+	c.Rule("R01c", "SQLite rebuild keeps its order (addTable ≺ copyRows ≺ DROP ≺ RENAME ≺ addIndexes, foreign keys disabled)", 5)
 	c.Rule("R01d", "schema apply computes the diff between the inspected target and the desired state and applies exactly those changes: applyChanges is given the change list computeDiff returned", 2)
 
 	c.Rule("R01e", "index key parts: wherever a planner prints a key part from IndexPart.C / IndexPart.X, the descending flag is consulted on every path to the end of that function (directly or by handing the part to a helper): an expression part keeps its DESC", 2)
